@@ -1,5 +1,6 @@
 import VrlModel.Wire
 import VrlModel.Conversion
+import VrlModel.C35
 
 /-!
   Line-protocol handler for C35: `c35.parse`, `c35.convert`, `c35.lower`, `c35.white`, `o.c35`.
@@ -114,12 +115,11 @@ def whiteList : List Nat :=
 
 def hexNat (n : Nat) : String := String.ofList (Nat.toDigits 16 n)
 
-/-- classes of `o.c35` failures (see Witness/C35.lean) -/
-def classify (v : Value) (conv : Conversion) (r : ConvResult) : String :=
-  match v, conv, r with
-  | .ts _, _, .panic => "rt:D_panic"
-  | .ts _, _, _ => "rt:D_ts"
-  | _, _, _ => "rt:-"
+/-- class names printed after `fails ` -/
+def showRtClass : C35.RtClass → String
+  | .none => "rt:-"
+  | .zoneAbbrev => "rt:D_zone_abbrev"
+  | .literalPercent => "rt:D_literal_percent"
 
 def handle (op : String) (args : List String) : Option String :=
   match op, args with
@@ -139,13 +139,28 @@ def handle (op : String) (args : List String) : Option String :=
       | none => "err:unknown")
   | "c35.white", [] => some (" ".intercalate (whiteList.map hexNat))
   | "o.c35.lower", ["|", sweep] => some (if lowerSweepOK sweep then "holds" else "fails lower:-")
-  | "o.c35", [v, _name, _tz, _render, "|", conv, _text, unamb, res] => do
+  | "o.c35", [v, name, tz, _render, "|", _conv, _text, unamb, off, res] => do
     let v ← valueOfString v
     let r ← resultOfString res
-    let _ := conv
-    if decide (r = .ok v) then pure "holds"
-    else if unamb == "0" then pure "holds"
-    else pure ("fails " ++ classify v .bytes r)
+    let name ← charsOfHex name
+    let off ← off.toInt?
+    let conv ← Conversion.parse name (tzOfString tz)
+    if C35.roundTripOK v r then pure "holds"
+    -- outside the domain of chrono's round-trip law: wall-clock time inside a DST fold (zone-less
+    -- formats), or a zone offset with seconds that `%z` cannot print
+    else if unamb == "0" || off % 60 != 0 then pure "holds"
+    else pure ("fails " ++ showRtClass (C35.rtClass conv))
+  | "o.c35.nopanic", [name, bytes, tz, "|", obs, res] => do
+    let name ← charsOfHex name
+    let bytes ← bytesOfHex bytes
+    let r ← resultOfString res
+    let o := obsOfString obs
+    if C35.noPanic r then pure "holds"
+    else
+      -- classify with the model: it panics exactly when chrono handed out an instant in D_leap_offset
+      pure (match convertNamed (floatText o) (chrono o) name (tzOfString tz) bytes with
+        | some .panic => "fails nopanic:D_leap_offset"
+        | _ => "fails nopanic:-")
   | _, _ => none
 
 end Driver.C35
